@@ -23,7 +23,7 @@ import (
 func c13Revs() (client []int, server []int) {
 	seen := map[int]bool{}
 	add := func(v int) {
-		if v >= refproto.RevSettingsAsStrings && !seen[v] {
+		if v >= refproto.RevSettingsAsStrings-1 && !seen[v] {
 			seen[v] = true
 			server = append(server, v)
 		}
